@@ -227,10 +227,13 @@ def project_commands(run):
     items, nodes, started_nodes = {}, {}, set()
     body_started, proceeded, first_line, run_id = [], set(), "", 0
     inited = set()
+    cancelled_nodes = set()
     for e in run["events"]:
         k = e["e"]
         if k == "init":
             inited.add(e["inst"])
+        if k == "flag" and e["f"] == "cancelled":
+            (cancelled_nodes.add if e["new"] == "True" else cancelled_nodes.discard)(e["n"])
         if k == "prog":
             nodes = {n["id"]: n for n in e["nodes"]}
         elif k == "item":
@@ -265,9 +268,9 @@ def project_commands(run):
             if cls == "UodCommandNode":
                 kind = "uod"
             elif cls == "WatchNode":
-                kind = "watch" if node not in proceeded else "watch-after-activation"
+                kind = "watch-after-cancel" if node in cancelled_nodes else ("watch" if node not in proceeded else "watch-after-activation")
             elif cls == "AlarmNode":
-                kind = "alarm" if node not in proceeded else "alarm-after-activation"
+                kind = "alarm-after-cancel" if node in cancelled_nodes else ("alarm" if node not in proceeded else "alarm-after-activation")
             elif name.startswith("Pause"):
                 kind = "pause"
             elif name.startswith("Hold"):
